@@ -32,6 +32,7 @@ LEVEL_TEXT = (
     "chain-incongruence flag equal to the same functionals recomputed from a Counter over canonical multisets of the "
     "retained steps. Held on what was observed; traces outside these bounds were not run."
 )
+LEVEL_TEXT += ' Session 3: pooled ploidies (8-256) in the generated traces, and query-order variants - the incongruence flag and the per-chain split asked of a fresh (burned or unburned) trace before any posterior() was computed on it.'
 LEVEL_NOTE = (
     "Trusts collections.Counter, Python tuple sorting and the VCF genotype index in vlib/oracles/model.py (cross-checked against "
     "explicit enumeration). Tolerances: 1e-12 on count/N probabilities, 1e-9 on accumulated sums; ties and thresholds within "
